@@ -462,7 +462,7 @@ fn gen_c10(rng: &mut Rng, _thorough: bool) -> Case {
     let mut script = Vec::new();
     let series = rng.range(1, 4);
     for s in 0..series {
-        let period = unit * rng.range(1, 4);
+        let period = if rng.pct(4) { HUGE_PERIOD + unit * rng.range(1, 4) } else { unit * rng.range(1, 4) };
         let keyed = rng.pct(50);
         let mode = if keyed { Mode::KeyedPeriodic(s as u8, period) } else { Mode::Periodic(period) };
         let when = if rng.pct(50) { When::Abs(unit * rng.range(1, 6)) } else { When::Rel(unit * rng.range(1, 6)) };
